@@ -72,6 +72,20 @@ impl Gate {
 /// (which gives up the last handle of another span - that span's whole close then runs nested inside this one).
 type NestedJob = Box<dyn FnOnce() + Send>;
 static NESTED: Mutex<Option<(u64, i64, NestedJob)>> = Mutex::new(None);
+/// User code inside `on_close` that panics: layer 2 panics (once) when it is told that span `.1` closes on thread `.0`.
+static BOOM: Mutex<Option<(u64, i64)>> = Mutex::new(None);
+fn boom_if_armed(tok: i64) {
+    let hit = {
+        let mut g = BOOM.lock().unwrap();
+        match *g {
+            Some((t, k)) if t == vh_common::rec::vt() && k == tok => g.take().is_some(),
+            _ => false,
+        }
+    };
+    if hit {
+        panic!("user code panics inside on_close");
+    }
+}
 fn run_nested_if_armed(tok: i64) {
     let job = {
         let mut g = NESTED.lock().unwrap();
@@ -149,7 +163,9 @@ where
             GATE.park_if_armed();
         }
         let vt = vh_common::rec::vt();
-        let rec = match ctx.span(&id) {
+        // a layer may consult the thread's current span while it handles a close (also one that happens inside `exit`)
+        let current = ctx.lookup_current().map(|s| tok_of::<L, C>(&s)).unwrap_or(0);
+        let mut rec = match ctx.span(&id) {
             Some(s) => {
                 let scope: Vec<i64> = s.scope().map(|a| tok_of::<L, C>(&a)).collect();
                 let tok = tok_of::<L, C>(&s);
@@ -159,10 +175,12 @@ where
             }
             None => json!({"vt": vt, "reg": self.reg, "layer": L, "call": "close", "tok": -1, "id": id.into_u64(), "readable": false, "scope": [], "pw": []}),
         };
+        rec["current"] = json!(current);
         let tok = rec["tok"].as_i64().unwrap_or(-1);
         self.log.lock().unwrap().push(rec);
         if L == 2 {
             run_nested_if_armed(tok);
+            boom_if_armed(tok);
         }
     }
     fn on_event(&self, e: &Event<'_>, ctx: Context<'_, C>) {
@@ -471,6 +489,7 @@ fn child() {
             "drop" => {
                 let unwind = step["unwind"].as_bool().unwrap_or(false);
                 let front = step["front"].as_bool().unwrap_or(false);
+                let boom = step["boom"].as_bool().unwrap_or(false);
                 let job = move |_: &mut Ctx| {
                     // which of the references goes does not matter to the history; `front` gives up the oldest one, so
                     // that a raw reference can be the last
@@ -483,6 +502,12 @@ fn child() {
                                 panic!("unwinding through the owner of a span handle");
                             }));
                             assert!(r.is_err());
+                        }
+                        // the outermost layer's on_close panics for this span, if this drop closes it; the owner catches the panic
+                        H::S(sp) if boom => {
+                            *BOOM.lock().unwrap() = Some((vh_common::rec::vt(), s as i64));
+                            let _ = std::panic::catch_unwind(std::panic::AssertUnwindSafe(move || drop(sp)));
+                            *BOOM.lock().unwrap() = None;
                         }
                         H::S(sp) => drop(sp),
                         H::Raw(id, d, true) => {
@@ -669,6 +694,12 @@ fn child() {
                 && c1.iter().chain(c2.iter()).all(|c| c["readable"] == true && c["scope"] == c["pw"])
                 && c1.iter().zip(c2.iter()).all(|(a, b)| a["scope"] == b["scope"])
         );
+        // the current span the (unfiltered) layers saw while handling the closes of an exit / a plain drop on the executing thread
+        o["clcur"] = json!(if (op == "exit" || op == "drop") && step.get("then").is_none() {
+            c1.iter().chain(c2.iter()).filter(|c| c["vt"] == json!(t)).map(|c| json!({"reg": c["reg"], "cur": c["current"]})).collect::<Vec<_>>()
+        } else {
+            vec![]
+        });
         let (n1, n2) = (per_layer(1, "new_span"), per_layer(2, "new_span"));
         if op == "new" {
             let ok = n1.len() == 1 && n2.len() == 1 && n1[0]["par"] == n2[0]["par"] && n1[0]["tok"] == n2[0]["tok"] && n1.iter().chain(n2.iter()).all(|c| c["scope"] == c["pw"]);
